@@ -237,6 +237,10 @@ def build_history(config, point, var, src, places):
             S['GOOD'] = Market(co, 'GOOD')
         if code == src:
             S[src].AddVariable('Q', 'a constructor-time variable', '2.5')
+            # sector-local variables spelled like the model-level time names, used by the sector's own equations
+            S[src].AddVariable('t', 'transfers (a local name)', '4.5')
+            S[src].AddVariable('k1', 'another local name', '1.5')
+            S[src].AddVariable('SPEND', 'uses the local t', '0.8*t + 0.1*k1 + Q')
             if point == 'early':
                 request()
     for code in ('GOV', 'HH', 'BUS', 'TF', 'LAB', 'GOOD'):
